@@ -266,6 +266,16 @@ Fixpoint map_outcome {A B} (f : A -> outcome B) (l : list A) : outcome (list B) 
 Definition build_palette (t : octree) : outcome (list rgb) :=
   map_outcome leaf_rgb (oc_leaves t).
 
+(* ---------- distinct colours (specification side) ---------- *)
+
+Definition mem (c : rgb) (l : list rgb) : bool := existsb (rgb_eqb c) l.
+
+Fixpoint nodup_rgb (l : list rgb) : list rgb :=
+  match l with
+  | [] => []
+  | c :: r => if mem c r then nodup_rgb r else c :: nodup_rgb r
+  end.
+
 (* ---------- observation used by the harness: OcTree::to_digraph ---------- *)
 (* DFS preorder; a Tree prints (leaf_count, min_color_count.unwrap_or(0)), a Leaf
    prints its colour and color_count *)
